@@ -3,6 +3,8 @@
 //! functions), which the token-level model and the in-process engine cannot see.
 //! Each case calls the function directly and through `Impl<T>` and compares the recorded
 //! (function, arguments) trace and the result.
+//! The impl-block and parameter-name cases make it a probe of C07 and C16 as well.
+//! ALSO: C07 C16
 use entrait::*;
 use std::cell::RefCell;
 
